@@ -267,7 +267,6 @@ pub fn profile_for(id: &str, rng: &mut Rng) -> Profile {
             p.guards.push("drop_table_before_crash".into()); // D6c
             p.guards.push("drop_only_after_checkpoint".into()); // D6c, narrowed
             p.guards.push("crash_inside_drop_table".into()); // D6c (fault-space guard)
-            p.guards.push("delete_of_own_insert_in_open_txn".into()); // F5
             p.guards.push("crash_inside_checkpoint_page_writes".into()); // D22b (fault-space guard)
             if id == "C02" {
                 p.p_rollback = rng.range(40, 70) as u32;
